@@ -14,6 +14,16 @@ import (
 // ---- C03: every proper prefix of a fixed set of valid documents x every entry point ----
 
 func enumC03(emit func(c any) bool) {
+	// scaling probes: every family x the three piecewise entry points
+	for _, format := range formatNames {
+		for _, fam := range scaleFamilies[format] {
+			for _, entry := range []string{"write1", "reader3", "decoder3"} {
+				if !emit(&C03Case{Format: format, Entry: entry, Kind: "enum_scaling", Scale: &C03Scale{Family: fam, N: 30000}}) {
+					return
+				}
+			}
+		}
+	}
 	for _, format := range formatNames {
 		for _, d := range c02EnumDocs[format] {
 			doc := []byte(d)
